@@ -150,6 +150,9 @@ def run_inmemory(model, labels, c):
     path = tempfile.mkdtemp(prefix="verif_c18_mem_")     # BaseDataset creates np_chunks_path even when unused ('.' by default)
     try:
         ds = _dataset(model, labels, c, False, path)
+        # every index is read twice (second epoch) and the SECOND read is the one compared across frameworks: a framework
+        # whose samples change on re-reading (e.g. through its in-memory cache) no longer agrees with the others (seed C18_r6)
+        _first = [ds[i] for i in range(len(ds))]
         return [ds[i] for i in range(len(ds))]
     finally:
         shutil.rmtree(path, ignore_errors=True)
@@ -159,6 +162,9 @@ def run_npchunks(model, labels, c):
     path = tempfile.mkdtemp(prefix="verif_c18_npz_")
     try:
         ds = _dataset(model, labels, c, True, path)
+        # every index is read twice (second epoch) and the SECOND read is the one compared across frameworks: a framework
+        # whose samples change on re-reading (e.g. through its in-memory cache) no longer agrees with the others (seed C18_r6)
+        _first = [ds[i] for i in range(len(ds))]
         return [ds[i] for i in range(len(ds))]
     finally:
         shutil.rmtree(path, ignore_errors=True)
@@ -209,6 +215,9 @@ def run_chunkstream(model, labels, c):
         else:
             ds = sd.BottomUpStreamingDataset(confmap_head=conf, pafs_head=head_config(c["paf_sigma"], c["paf_stride"]),
                                              edge_inds=labels.skeletons[0].edge_inds, max_stride=c["max_stride"], items=items)
+        # every index is read twice (second epoch) and the SECOND read is the one compared across frameworks: a framework
+        # whose samples change on re-reading (e.g. through its in-memory cache) no longer agrees with the others (seed C18_r6)
+        _first = [ds[i] for i in range(len(ds))]
         return [ds[i] for i in range(len(ds))]
 
 
